@@ -235,6 +235,8 @@ def _c10():
 
 
 PROPS["C10"] = _c10()
+PROPS["XS"] = dict(kind="mux", module="stream_h.rs", harnesses=[H(n, profiles=("dev",)) for n in harness_names("stream_h.rs", "c")])
+PROPS["XT"] = dict(kind="mux", module="task_h.rs", harnesses=[H(n, profiles=("dev",)) for n in harness_names("task_h.rs", "c") if n.startswith(("c04","c07","c11","c15"))])
 
 # ---------------------------------------------------------------------------------------------
 # MANIFEST texts
